@@ -126,6 +126,14 @@ def gen(W):
             sc["ctl2"] = [["sleep", max(0.0, t0 + W.choice([0.0, -0.0001, 0.0001, 0.001]))], ["resize", 1 + W.draw(3)]]
             if W.chance(0.4):
                 sc["ctl2"] += [["sleep", W.choice([0.0, 0.0002])], ["resize", 1 + W.draw(3)]]
+    elif ctl and W.chance(0.4):
+        # no shutdown: a second controlling thread resizes the pool while (or right after) the first one does;
+        # set_thread_count is atomic, so the pool must end at the size asked for by a call that can be last
+        nth = W.draw(len(ctl) // 2)
+        t0 = sum(op[1] for op in ctl[:2 * nth + 1] if op[0] == "sleep")
+        sc["ctl2"] = [["sleep", max(0.0, t0 + W.choice([0.0, -0.0001, 0.0001, 0.001]))], ["resize", 1 + W.draw(3)]]
+        if W.chance(0.4):
+            sc["ctl2"] += [["sleep", W.choice([0.0, 0.0002])], ["resize", 1 + W.draw(3)]]
     sc["subs"] = subs
     sc["ctl"] = ctl
     sc["sched"] = {"kind": W.choice(["walk", "rtb"], p0=0.8), "gap_mean": W.choice([2, 5, 15, 50])}
@@ -230,6 +238,7 @@ def run_one(tapes, tier, scenario=None):
     shutdown_args = None
     shutdown_done = None
     last_resize = sc["workers"]
+    resizes = []  # [seq of the call, seq of its return, count, calling thread]
     for e in H:
         kind = e[2]
         if kind == "q_append":
@@ -251,8 +260,14 @@ def run_one(tapes, tier, scenario=None):
             shutdown_args = (e[3], e[4])
         elif kind == "shutdown_done":
             shutdown_done = e[0]
+        elif kind == "resize_call":
+            resizes.append([e[0], None, e[3], e[1]])
         elif kind == "resize_done":
             last_resize = e[3]
+            for r in reversed(resizes):
+                if r[3] == e[1] and r[1] is None:
+                    r[1] = e[0]
+                    break
     if lost:
         res.v("lost_wakeup", "idle_worker_with_queued_task", "all threads blocked at seq %d with task(s) %r queued while worker(s) %r sleep on the queue condition" % (
             lost[0][2], lost[0][0], lost[0][1]))
@@ -288,9 +303,18 @@ def run_one(tapes, tier, scenario=None):
                     res.v("lost", "never_run", "task %r was submitted but service() ran %d times (queue at end %r, workers alive %d)" % (
                         tid, begun.count(tid), snap.get("queue"), len(alive_workers)))
                     break
-            if len(alive_workers) != last_resize:
-                res.v("resize", "no_convergence", "%d workers alive at quiescence, last set_thread_count(%d); dispatcher threads=%r stop_count=%r" % (
-                    len(alive_workers), last_resize, snap.get("threads"), snap.get("stop_count")))
+            # set_thread_count is atomic (it runs under the dispatcher lock): the pool ends at the size asked for by
+            # the call that took effect last, and a call can be that one only if no other call began after it returned
+            done = [r for r in resizes if r[1] is not None]
+            can_be_last = sorted(set(r[2] for r in done if not any(o is not r and o[0] > r[1] for o in resizes))) or [last_resize]
+            if any(r[1] is None for r in resizes):
+                res.v("resize", "call_never_returned", "a set_thread_count call had not returned at quiescence: %r" % (resizes,))
+            elif len(alive_workers) not in can_be_last:
+                res.v("resize", "no_convergence", "%d workers alive at quiescence, the last set_thread_count asked for %s; dispatcher threads=%r stop_count=%r" % (
+                    len(alive_workers), " or ".join(str(c) for c in can_be_last), snap.get("threads"), snap.get("stop_count")))
+            elif len(snap.get("threads") or ()) != len(alive_workers) or snap.get("stop_count"):
+                res.v("resize", "accounting", "%d workers alive at quiescence but the dispatcher records threads=%r stop_count=%r" % (
+                    len(alive_workers), snap.get("threads"), snap.get("stop_count")))
         else:
             cancel_pending, timeout = shutdown_args
             before = [tid for tid in appended if seq_of[("append", tid)] < shutdown_call]
